@@ -1,12 +1,21 @@
 /-
 C08 — grammar mistakes are rejected with the right diagnostic; clean grammars pass.
 
+Proved for the model of check.rs (`Check.validate`, tied to the library exactly on every run), for
+every grammar tree and target shell — each `rejects_…` theorem says: a grammar with this mistake,
+and none of the mistakes checked before it, is rejected with this class, whatever else it contains:
+  rejects_no_variant, rejects_varying_names, rejects_slash_name, rejects_duplicate_plain,
+  rejects_unknown_shell, rejects_non_command_spec, rejects_duplicate_target_spec,
+and `error_is_final`: an error of validation is the verdict of the whole pipeline.  The classes
+decided later in the pipeline (cycle, spaces inside a word, non-tail placeholder, conflicting
+descriptions) and `accepts_clean` are open; they are decided per grammar by the run.
+
 The label table `Gen.diagLabels` is regenerated from lib.rs / main.rs on every run.  Proved here:
 the first diagnostic lines of the classes the property names are pairwise distinct and none is a
 substring-free empty text, so the first line of a diagnostic identifies the class; the model's
 error classes are exactly the variants of the `Error` enum that carry a diagnosis.
 -/
-import Complgen.Model.Check
+import Complgen.Proofs.Validate
 import Complgen.Gen.Diag
 namespace Complgen.Props.C08
 open Complgen
@@ -32,5 +41,79 @@ theorem model_classes_exist :
       .duplicateNonterminalDefinition, .unknownShell, .nonCommandSpecialization, .unboundedMatchable,
       .conflictingDescriptions, .subwordSpaces, .ambiguousDFA, .parseError].all
       fun c => (labelOf c.name).isSome) = true := by decide
+
+open Complgen.Check in
+/-- a grammar without call variants is rejected -/
+theorem rejects_no_variant (g : Grammar) (sh : Shell) (h : callsOf g = []) :
+    validate g sh = .err .missingCallVariants [] := by
+  unfold validate
+  rw [commandOf_no_calls g h]
+
+open Complgen.Check in
+/-- call variants for different command names are rejected -/
+theorem rejects_varying_names (g : Grammar) (sh : Shell) (a b : String)
+    (ha : a ∈ callNames g) (hb : b ∈ callNames g) (hab : a ≠ b) :
+    ∃ spans, validate g sh = .err .varyingCommandNames spans := by
+  obtain ⟨spans, h⟩ := commandOf_varying g a b ha hb hab
+  exact ⟨spans, by unfold validate; rw [h]⟩
+
+open Complgen.Check in
+/-- a command name containing `/` is rejected -/
+theorem rejects_slash_name (g : Grammar) (sh : Shell) (n : String) (h : OneCommand g n)
+    (hs : '/' ∈ n.toList) : ∃ sp, validate g sh = .err .invalidCommandName [sp] := by
+  obtain ⟨sp, h⟩ := commandOf_slash g n h hs
+  exact ⟨sp, by unfold validate; rw [h]⟩
+
+open Complgen.Check in
+/-- two plain definitions of one nonterminal are rejected -/
+theorem rejects_duplicate_plain (g : Grammar) (sh : Shell) (n : String) (h : OneCommand g n)
+    (hs : '/' ∉ n.toList) (hd : ¬ ((plainDefs g).map (·.1)).Nodup) :
+    ∃ spans, validate g sh = .err .duplicateNonterminalDefinition spans :=
+  validate_dup_plain g sh n (commandOf_ok g n h hs) hd
+
+open Complgen.Check in
+/-- an unknown shell after `@` is rejected — for every target shell -/
+theorem rejects_unknown_shell (g : Grammar) (sh : Shell) (n : String) (h : OneCommand g n)
+    (hs : '/' ∉ n.toList) (hd : ((plainDefs g).map (·.1)).Nodup)
+    (hc : ∀ x ∈ specDefs g, isCmdSpec x = true) (hu : ∃ x ∈ specDefs g, knownShell x = false)
+    (hds : TargetSpecsDistinct g sh) :
+    ∃ spans, validate g sh = .err .unknownShell spans :=
+  validate_unknown_shell g sh n (commandOf_ok g n h hs) hd hc hu hds
+
+open Complgen.Check in
+/-- a shell-specific definition that is not an external command is rejected — for every target shell -/
+theorem rejects_non_command_spec (g : Grammar) (sh : Shell) (n : String) (h : OneCommand g n)
+    (hs : '/' ∉ n.toList) (hd : ((plainDefs g).map (·.1)).Nodup)
+    (hk : ∀ x ∈ specDefs g, knownShell x = true) (hnc : ∃ x ∈ specDefs g, isCmdSpec x = false)
+    (hds : TargetSpecsDistinct g sh) :
+    ∃ spans, validate g sh = .err .nonCommandSpecialization spans :=
+  validate_non_command_spec g sh n (commandOf_ok g n h hs) hd hk hnc hds
+
+open Complgen.Check in
+/-- two definitions for the target shell are rejected -/
+theorem rejects_duplicate_target_spec (g : Grammar) (sh : Shell) (n : String) (h : OneCommand g n)
+    (hs : '/' ∉ n.toList) (hd : ((plainDefs g).map (·.1)).Nodup)
+    (hc : ∀ x ∈ specDefs g, isCmdSpec x = true) (hk : ∀ x ∈ specDefs g, knownShell x = true)
+    (hds : ¬ TargetSpecsDistinct g sh) :
+    ∃ spans, validate g sh = .err .duplicateNonterminalDefinition spans :=
+  validate_dup_spec g sh n (commandOf_ok g n h hs) hd hc hk hds
+
+/-- an error of validation is the verdict of the whole pipeline, for every work-list schedule -/
+theorem error_is_final (σ : Schedule) (g : Grammar) (sh : Shell) (c : Check.ErrClass) (s : List Span)
+    (h : Check.validate g sh = .err c s) : ∃ s', Pipeline.compile σ g sh = .err c s' :=
+  Check.compile_err_of_validate σ g sh c s h
+
+/-- Non-vacuity: `cmd a; other b;` meets the premises of `rejects_varying_names`, and
+`cmd a; <X@tcsh> = {{{ x }}};` those of `rejects_unknown_shell`. -/
+example :
+    let g : Grammar := [.call "cmd" default (.term "a" none 0 default), .call "other" default (.term "b" none 0 default)]
+    "cmd" ∈ Check.callNames g ∧ "other" ∈ Check.callNames g := by decide
+
+example :
+    let g : Grammar := [.call "cmd" default (.term "a" none 0 default),
+                        .defn "X" default (some ("tcsh", default)) (.cmd "x" false 0 default)]
+    Check.OneCommand g "cmd" ∧ (∃ x ∈ Check.specDefs g, Check.knownShell x = false) ∧
+      (∀ x ∈ Check.specDefs g, Check.isCmdSpec x = true) := by
+  refine ⟨⟨by decide, by decide⟩, ⟨_, List.mem_cons_self, by decide⟩, by decide⟩
 
 end Complgen.Props.C08
